@@ -58,7 +58,16 @@ func buildShape(era Era, s shapeSpec, p Params) *Case {
 	c := &Case{Tx: tx, P: p, SS: newStSpec(), Slot: 5000, UtxoMap: s.UtxoMap && era >= Babbage, Sink: 0}
 	polKey := payKeys[int(s.CoinSeed%4)]
 	id := AssetID{Policy: foreignPolicy(0), Name: s.Name}
-	if s.OwnPol || s.Mint != nil {
+	if s.Mint != nil {
+		id.Policy = policyOfKey(polKey)
+	} else if !s.OwnPol {
+		// without a mint field the token may sit under any policy id, including
+		// the special ones (28x00, 28xff, ...)
+		sp := specialPolicies()
+		if k := int(s.CoinSeed % uint64(len(sp)+1)); k < len(sp) {
+			id.Policy = sp[k].ID
+		}
+	} else {
 		id.Policy = policyOfKey(polKey)
 	}
 	other := AssetID{Policy: foreignPolicy(1), Name: "tok"}
@@ -131,7 +140,7 @@ func shapeSweep() []shapeSpec {
 					for m := 0; m < 3; m++ {
 						seed++
 						s := shapeSpec{NIn: nIn, TokIn: tokIn, NOut: nOut, TokOut: tokOut, InQty: big.NewInt(100),
-							Name: "tok", CoinSeed: seed, OwnPol: true, MapForm: seed%2 == 0, UtxoMap: seed%3 == 0}
+							Name: "tok", CoinSeed: seed, OwnPol: m != 0 || seed%2 == 1, MapForm: seed%2 == 0, UtxoMap: seed%3 == 0}
 						switch m {
 						case 1:
 							s.Mint = big.NewInt(40)
